@@ -206,7 +206,7 @@ func vDotParse(toks []vDotTok) (nodes map[string]bool, edges [][2]string, ok boo
 // VerifC18Dot: the DOT document stays syntactically valid when one
 // profile-derived string carries DOT metacharacters.
 func VerifC18Dot() {
-	where := vChoice("where", vBound("c18.sites", 6))
+	where := vChoice("where", vBound("c18.sites", 7)) // 6: no metacharacter, but a label set whose weights cancel
 	n := vBound("c18.bytes", 1)
 	str := func(site int, tag, prefix, suffix string) string {
 		if where == site {
@@ -239,6 +239,12 @@ func VerifC18Dot() {
 			{Location: []*profile.Location{l1}, Value: []int64{10}},
 		},
 	}
+	if where == 6 {
+		// a diff-like profile: the same stack and label set with weights +5 and -5, different numeric labels
+		prof.Sample = append(prof.Sample,
+			&profile.Sample{Location: []*profile.Location{l2, l1}, Value: []int64{5}, Label: map[string][]string{"z": {"w"}}, NumLabel: map[string][]int64{"bytes": {3}}, NumUnit: map[string][]string{"bytes": {"kB"}}},
+			&profile.Sample{Location: []*profile.Location{l2, l1}, Value: []int64{-5}, Label: map[string][]string{"z": {"w"}}, NumLabel: map[string][]int64{"bytes": {4}}, NumUnit: map[string][]string{"bytes": {"kB"}}})
+	}
 	g := New(prof, &Options{
 		SampleValue: func(v []int64) int64 { return v[0] },
 		FormatTag:   func(v int64, unit string) string { return strconv.FormatInt(v, 10) + unit },
@@ -253,7 +259,7 @@ func VerifC18Dot() {
 	ComposeDot(&buf, g, &DotAttributes{}, cfg)
 	out := buf.String()
 	vReach("C18.dot:composed")
-	sites := []string{"graph title", "legend line", "function name", "file name", "label value", "numeric label unit"}
+	sites := []string{"graph title", "legend line", "function name", "file name", "label value", "numeric label unit", "(cancelling label weights)"}
 	toks, ok := vDotLex(out)
 	if !ok {
 		vAssert(false, "C18.dot.lex."+strconv.Itoa(where)+": DOT output does not tokenize (unterminated string or stray character) with metacharacters in the "+sites[where])
